@@ -641,6 +641,14 @@ class TorchSize(tuple):
         return r
 
 
+def _broadcastable_2d(a, b):
+    try:
+        shp = np.broadcast_shapes(a.shape, b.shape)
+    except ValueError:
+        return False
+    return len(shp) == 2
+
+
 HOOKS = {'inplace': None, 'event': None, 'allow_nl': False}     # installed by fakelibs
 
 
@@ -816,9 +824,9 @@ class DataT:
                 s_ops = [(p, 'take', [int(v) for v in arr]) if (p == sp and k == 'adv') else (p, k, a)
                          for p, k, a in s_ops]
                 new_dims[nd] = ('S', len(arr))
-            elif len(adv_s) == 2 and adv_s[0][1].ndim == 2 and adv_s[1][1].ndim == 2 \
-                    and adv_s[0][1].shape == adv_s[1][1].shape:
+            elif len(adv_s) == 2 and _broadcastable_2d(adv_s[0][1], adv_s[1][1]):
                 (sp0, a0, nd0), (sp1, a1, nd1) = adv_s
+                a0, a1 = np.broadcast_arrays(a0, a1)          # numpy / torch index broadcasting
                 if not ((a0 == a0[:, :1]).all() and (a1 == a1[:1, :]).all()):
                     raise AnalysisError('unsupported', 'non-separable pair of index arrays')
                 if nd1 != nd0 + 1:
